@@ -112,6 +112,9 @@ def run(run_, tier):
     n = symla_systems.run_cases(run_, "c08_cases", keep=lambda oid: "projection-" not in oid)
     transitions(run_)
     run_.notes.append(f"{n} system configurations")
+    # Engine D: sample_momentum of the Euclidean-family systems for ALL dimensions and every metric object satisfying the matrix contract
+    from . import generic_systems
+    generic_systems.run_generic_systems(run_, keep=lambda oid: any(t in oid for t in ("sample_momentum", "sampled-momentum", "metric-sqrt", "metric-inverse")))
     # the metric adapters replace the metric at the end of a warm-up stage and redraw the momenta: a momentum update too -- the draw must
     # use the metric the chain continues with (C17's obligation `momenta-refreshed-under-new-metric`, imported)
     from . import c17
